@@ -8,6 +8,7 @@ import (
 
 	"github.com/sharedcode/sop"
 	"github.com/sharedcode/sop/btree"
+	"github.com/sharedcode/sop/cache"
 	"github.com/sharedcode/sop/encoding"
 	"github.com/sharedcode/sop/zzvf"
 )
@@ -68,6 +69,14 @@ func vfCommitted(prog int) *vfScenario {
 	}
 	if err := t.Commit(ctx); err != nil {
 		panic("baseline commit failed: " + err.Error())
+	}
+	// cache state met by the transactions under test: warm (as left by the baseline commit),
+	// L1 evicted (nodes only in L2), or a restarted process (L1 and L2 cold)
+	switch zzvf.Choose("caches", 3) {
+	case 1:
+		cache.VerifResetGlobals()
+	case 2:
+		s.w.restart()
 	}
 	if prog == progAddOne || prog == progMixed || prog == progNewStore || prog == progTwoStores || prog == progTwoStoresMixed {
 		s.k = zzvf.Int("key")
